@@ -100,6 +100,13 @@ theorem zipOneHot_length : ∀ (nv : List Nat) (r : List Rat), InRange nv r →
   | [], _ :: _, h => h.elim
   | _ :: _, [], h => h.elim
 
+theorem numel_netShape_box (p : List Nat) (lo hi : List (Option Rat)) :
+    numel (Leaf.netShape (.box p lo hi)) = numel p := by
+  cases p <;> simp [Leaf.netShape, numel]
+
+theorem netShape_box_cons (d : Nat) (ps : List Nat) (lo hi : List (Option Rat)) :
+    Leaf.netShape (.box (d :: ps) lo hi) = d :: ps := rfl
+
 /-- what one observation becomes has exactly the network's input size -/
 theorem prepRow_length (norm : Bool) (sp : Leaf) (hsp : WellFormed sp) (r : List Rat)
     (hv : ValidObs sp r) : (prepRow norm sp r).length = numel sp.netShape := by
@@ -107,7 +114,8 @@ theorem prepRow_length (norm : Bool) (sp : Leaf) (hsp : WellFormed sp) (r : List
   | box p lo hi =>
     obtain ⟨_, hlo, hhi⟩ := hsp
     have hr : r.length = numel p := hv
-    simp only [prepRow, Leaf.netShape]
+    rw [numel_netShape_box]
+    simp only [prepRow]
     split
     · unfold normData
       cases hl : allOk lo with
